@@ -178,13 +178,51 @@ package intermediate
 //@ // elemValues: the only state the aggregation helpers write in an existing record: the values of its elements
 //@ // (the setters used are SetUnsigned8/16/32/64Value, SetSigned32Value, SetStringValue, SetIPAddressValue)
 
+//@ // elements of one record are distinct objects; two records share no element object
+//@ pure distinctElems(r entities.Record) bool = forall i in [0, len(recList(r))): forall j in [0, len(recList(r))): i != j ==> recList(r)[i].(*baseInfoElement) != recList(r)[j].(*baseInfoElement)
+//@ pure disjointElems(r1 entities.Record, r2 entities.Record) bool = forall i in [0, len(recList(r1))): forall j in [0, len(recList(r2))): recList(r1)[i].(*baseInfoElement) != recList(r2)[j].(*baseInfoElement)
+//@ // both records are built from registry elements: the same name means the same information element (hence the same data type)
+//@ pure sameRegistry(r1 entities.Record, r2 entities.Record) bool = forall i in [0, len(recList(r1))): forall j in [0, len(recList(r2))): ie(recList(r1)[i]).Name == ie(recList(r2)[j]).Name ==> ie(recList(r1)[i]) == ie(recList(r2)[j])
+
 //@ func (a *AggregationProcess) correlateRecords(incomingRecord, existingRecord) (err)
-//@   requires rec: recNN(incomingRecord) && recNN(existingRecord)
+//@   requires a:   a != nil
+//@   requires rec: recNN(incomingRecord) && recNN(existingRecord) && distinctElems(existingRecord) && disjointElems(incomingRecord, existingRecord) && sameRegistry(incomingRecord, existingRecord)
+//@   requires present: forall k in [0, len(a.correlateFields)): hasName(incomingRecord, a.correlateFields[k]) ==> hasName(existingRecord, a.correlateFields[k])
 //@   ensures  err: err == nil
+//@   // C07: the merged record carries every non-empty correlated field (string, unsigned8/16, signed32) of the incoming side
+//@   ensures  str: forall k in [0, len(a.correlateFields)): forall j in [0, len(recList(incomingRecord))): forall l in [0, len(recList(existingRecord))):
+//@                 isFirst(incomingRecord, a.correlateFields[k], j) && dt(recList(incomingRecord)[j]) == String && strval(recList(incomingRecord)[j]) != ""
+//@                 && isFirst(existingRecord, a.correlateFields[k], l) ==> strval(recList(existingRecord)[l]) == strval(recList(incomingRecord)[j])
+//@   ensures  u8: forall k in [0, len(a.correlateFields)): forall j in [0, len(recList(incomingRecord))): forall l in [0, len(recList(existingRecord))):
+//@                 isFirst(incomingRecord, a.correlateFields[k], j) && dt(recList(incomingRecord)[j]) == Unsigned8 && recList(incomingRecord)[j].(*Unsigned8InfoElement).value != 0
+//@                 && isFirst(existingRecord, a.correlateFields[k], l) ==> recList(existingRecord)[l].(*Unsigned8InfoElement).value == recList(incomingRecord)[j].(*Unsigned8InfoElement).value
+//@   ensures  u16: forall k in [0, len(a.correlateFields)): forall j in [0, len(recList(incomingRecord))): forall l in [0, len(recList(existingRecord))):
+//@                 isFirst(incomingRecord, a.correlateFields[k], j) && dt(recList(incomingRecord)[j]) == Unsigned16 && recList(incomingRecord)[j].(*Unsigned16InfoElement).value != 0
+//@                 && isFirst(existingRecord, a.correlateFields[k], l) ==> recList(existingRecord)[l].(*Unsigned16InfoElement).value == recList(incomingRecord)[j].(*Unsigned16InfoElement).value
+//@   ensures  s32: forall k in [0, len(a.correlateFields)): forall j in [0, len(recList(incomingRecord))): forall l in [0, len(recList(existingRecord))):
+//@                 isFirst(incomingRecord, a.correlateFields[k], j) && dt(recList(incomingRecord)[j]) == Signed32 && recList(incomingRecord)[j].(*Signed32InfoElement).value != 0
+//@                 && isFirst(existingRecord, a.correlateFields[k], l) ==> recList(existingRecord)[l].(*Signed32InfoElement).value == recList(incomingRecord)[j].(*Signed32InfoElement).value
+//@   // every string value of the existing side is either kept or replaced by the non-empty value of the incoming element with the same information element
+//@   ensures  keptstr: forall l in [0, len(recList(existingRecord))): dt(recList(existingRecord)[l]) == String ==> strval(recList(existingRecord)[l]) == old(strval(recList(existingRecord)[l]))
+//@                 || (exists j in [0, len(recList(incomingRecord))): ie(recList(incomingRecord)[j]) == ie(recList(existingRecord)[l]) && strval(recList(incomingRecord)[j]) != "" && strval(recList(existingRecord)[l]) == strval(recList(incomingRecord)[j]))
 //@   modifies recList(existingRecord)[*].(*StringInfoElement).value, recList(existingRecord)[*].(*Unsigned8InfoElement).value,
 //@            recList(existingRecord)[*].(*Unsigned16InfoElement).value, recList(existingRecord)[*].(*Signed32InfoElement).value,
 //@            recList(existingRecord)[*].(*IPAddressInfoElement).value
-//@   trusted
+//@   loop 1 invariant cnt: 0 <= $i && $i <= len(a.correlateFields)
+//@   loop 1 invariant keptstr: forall l in [0, len(recList(existingRecord))): dt(recList(existingRecord)[l]) == String ==> strval(recList(existingRecord)[l]) == old(strval(recList(existingRecord)[l]))
+//@                 || (exists j in [0, len(recList(incomingRecord))): ie(recList(incomingRecord)[j]) == ie(recList(existingRecord)[l]) && strval(recList(incomingRecord)[j]) != "" && strval(recList(existingRecord)[l]) == strval(recList(incomingRecord)[j]))
+//@   loop 1 invariant str: forall k in [0, $i): forall j in [0, len(recList(incomingRecord))): forall l in [0, len(recList(existingRecord))):
+//@                 isFirst(incomingRecord, a.correlateFields[k], j) && dt(recList(incomingRecord)[j]) == String && strval(recList(incomingRecord)[j]) != ""
+//@                 && isFirst(existingRecord, a.correlateFields[k], l) ==> strval(recList(existingRecord)[l]) == strval(recList(incomingRecord)[j])
+//@   loop 1 invariant u8: forall k in [0, $i): forall j in [0, len(recList(incomingRecord))): forall l in [0, len(recList(existingRecord))):
+//@                 isFirst(incomingRecord, a.correlateFields[k], j) && dt(recList(incomingRecord)[j]) == Unsigned8 && recList(incomingRecord)[j].(*Unsigned8InfoElement).value != 0
+//@                 && isFirst(existingRecord, a.correlateFields[k], l) ==> recList(existingRecord)[l].(*Unsigned8InfoElement).value == recList(incomingRecord)[j].(*Unsigned8InfoElement).value
+//@   loop 1 invariant u16: forall k in [0, $i): forall j in [0, len(recList(incomingRecord))): forall l in [0, len(recList(existingRecord))):
+//@                 isFirst(incomingRecord, a.correlateFields[k], j) && dt(recList(incomingRecord)[j]) == Unsigned16 && recList(incomingRecord)[j].(*Unsigned16InfoElement).value != 0
+//@                 && isFirst(existingRecord, a.correlateFields[k], l) ==> recList(existingRecord)[l].(*Unsigned16InfoElement).value == recList(incomingRecord)[j].(*Unsigned16InfoElement).value
+//@   loop 1 invariant s32: forall k in [0, $i): forall j in [0, len(recList(incomingRecord))): forall l in [0, len(recList(existingRecord))):
+//@                 isFirst(incomingRecord, a.correlateFields[k], j) && dt(recList(incomingRecord)[j]) == Signed32 && recList(incomingRecord)[j].(*Signed32InfoElement).value != 0
+//@                 && isFirst(existingRecord, a.correlateFields[k], l) ==> recList(existingRecord)[l].(*Signed32InfoElement).value == recList(incomingRecord)[j].(*Signed32InfoElement).value
 
 //@ func (a *AggregationProcess) aggregateRecords(incomingRecord, existingRecord, fillSrcStats, fillDstStats) (err)
 //@   requires rec: recNN(incomingRecord) && recNN(existingRecord)
